@@ -1,10 +1,126 @@
-/- driver ops for property C18 (model side of the correspondence) -/
+/- driver ops for property C18 (model side of the correspondence); Mathlib-free.
+   All numeric ops run the generic model of `Rsa.Core.Sim` at `Float`; `c18.gram` also at `Rat`.
+   Between stages matrices are materialised as nested lists (`toLists` / `ofLists`, the
+   identity in range: `Rsa.Sim.ofLists_toLists`). -/
 import Rsa.Core.Wire
+import Rsa.Core.Sim
 
-open Lean Rsa.Wire
+open Lean Rsa.Wire Rsa.Sim
 
 namespace Rsa.Drv.C18
 
-def handle : Handler := fun _op _j => none
+def asMatF (j : Json) : R (List (List Float)) := asList (asList asFloat) j
+def ofMatF (m : List (List Float)) : Json := ofList (ofList ofFloat) m
+def ofMatQ (m : List (List Rat)) : Json := ofList (ofList ofRat) m
+
+def optMat (j : Json) (k : String) : R (Option (Mat Float)) := do
+  match ← asOpt asMatF (fldD j k Json.null) with
+  | none => pure none
+  | some m => pure (some (ofLists m))
+
+/-- `make_design` -/
+def design (j : Json) : R Json := do
+  let nc ← fld j "n_cond" >>= asNat
+  let np ← fld j "n_part" >>= asNat
+  pure (obj [("cond", ofList ofNat (condVec nc np)), ("part", ofList ofNat (partVec nc np))])
+
+/-- `G = -0.5 H D H` from the RDM vector; `exact` = rational arithmetic -/
+def gram (j : Json) : R Json := do
+  let n ← fld j "n" >>= asNat
+  let exact ← asBool (fldD j "exact" (Json.bool false))
+  if exact then
+    let v ← fld j "rdm" >>= asList asRat
+    pure (ofMatQ (toLists n n (gramOfRdm n (squareform n v))))
+  else
+    let v ← fld j "rdm" >>= asList asFloat
+    pure (ofMatF (toLists n n (gramOfRdm n (squareform n v))))
+
+def maxAbs (m : List (List Float)) : Float :=
+  m.foldl (fun acc r => r.foldl (fun a x => if x.isNaN then x else if x.abs > a then x.abs else a) acc) 0
+
+def condInput (j : Json) : R (CondInput Float) := do
+  match (fldD j "vec" Json.null).isNull with
+  | false => do
+      let cv ← fld j "vec" >>= asList asNat
+      pure (.vec cv)
+  | true => do
+      let z ← fld j "design" >>= asMatF
+      pure (.design z)
+
+/-- `make_dataset` with the recorded results of `make_signal` and the recorded noise draws -/
+def dataset (j : Json) : R Json := do
+  let nCond ← fld j "n_cond" >>= asNat
+  let nCh ← fld j "n_ch" >>= asNat
+  let nSim ← fld j "n_sim" >>= asNat
+  let signal ← fld j "signal" >>= asFloat
+  let noise ← fld j "noise" >>= asFloat
+  let same ← fld j "same" >>= asBool
+  let cond ← fld j "cond" >>= condInput
+  let sigs ← fld j "signals" >>= asList asMatF
+  let zs ← fld j "noises" >>= asList asMatF
+  let cholC ← optMat j "chol_c"
+  let cholT ← optMat j "chol_t"
+  let modelName ← asStr (fldD j "model" (Json.str ""))
+  let theta ← asOpt (asList asFloat) (fldD j "theta" Json.null)
+  let p : Params Float :=
+    { nCond := nCond, nCh := nCh, nSim := nSim, signal := signal, noise := noise,
+      cholC := cholC, cholT := cholT, same := same, modelName := modelName, theta := theta }
+  let signals : Nat → Mat Float := fun i => ofLists (sigs.getD i [])
+  let noises : Nat → Mat Float := fun k => ofLists (zs.getD k [])
+  let dss := makeDatasets p cond signals noises
+  let outs := dss.map (fun ds =>
+    let rows := toLists ds.nObs ds.nCh ds.data
+    let rdm : Json := match ds.condVec with
+      | .vec cv => ofList ofFloat (rdmByCondition ds.nObs ds.nCh cv (ofLists rows))
+      | .design _ => Json.null
+    let condEcho : Json := match ds.condVec with
+      | .vec cv => ofList ofNat cv
+      | .design z => ofMatF z
+    obj [("data", ofMatF rows), ("rdm", rdm), ("cond_vec", condEcho),
+         ("signal", ofFloat ds.signal), ("noise", ofFloat ds.noise),
+         ("model", Json.str ds.modelName), ("theta", ofOpt (ofList ofFloat) ds.theta),
+         ("n_obs", ofNat ds.nObs), ("n_ch", ofNat ds.nCh)])
+  let plan := (drawPlan same nSim).map (fun d => Json.arr #[Json.bool d.1, ofNat d.2])
+  pure (obj [("datasets", Json.arr outs.toArray), ("plan", Json.arr plan.toArray),
+             ("n_signal_calls", ofNat (nSignalCalls same nSim)),
+             ("n_cols", ofNat cond.nCols), ("gen_width", ofNat (genWidth nCond nCh))])
+
+/-- the model's own exact signal (own Cholesky and Gram–Schmidt instances of the two factor
+    contracts), the contract residuals, and the whole loop to the RDM by condition -/
+def own (j : Json) : R Json := do
+  let nCond ← fld j "n_cond" >>= asNat
+  let nCh ← fld j "n_ch" >>= asNat
+  let v ← fld j "rdm" >>= asList asFloat
+  let z ← fld j "z" >>= asMatF
+  let cv ← fld j "vec" >>= asList asNat
+  let signal ← fld j "signal" >>= asFloat
+  let w := genWidth nCond nCh
+  let gl := toLists nCond nCond (gramOfRdm nCond (squareform nCond v))
+  let g : Mat Float := ofLists gl
+  let tol : Float := 1e-9 * (maxAbs gl + 1e-300)
+  let cl := toLists nCond nCond (cholPSD nCond g tol)
+  let c : Mat Float := ofLists cl
+  let residC := maxAbs (toLists nCond nCond (fun a b => gramRows nCond c a b - g a b))
+  let u0 := ofLists (toLists nCond w (rowCenter w (ofLists z)))
+  let wl := gramSchmidtRows nCond w u0
+  let wm : Mat Float := ofLists wl
+  let residW := maxAbs (toLists nCond nCond
+    (fun a b => gramRows w wm a b - (if a = b then (w : Float) else 0)))
+  let sl := toLists nCond nCh (makeSignal nCond nCh true (ofLists z) (fun _ => wm) c none)
+  let p : Params Float := { nCond := nCond, nCh := nCh, nSim := 1, signal := signal, noise := 0 }
+  let dss := makeDatasets p (.vec cv) (fun _ => ofLists sl) (fun _ => fun _ _ => 0)
+  let rdms := dss.map (fun ds =>
+    rdmByCondition ds.nObs ds.nCh cv (ofLists (toLists ds.nObs ds.nCh ds.data)))
+  pure (obj [("resid_c", ofFloat residC), ("resid_w", ofFloat residW),
+             ("signal", ofMatF sl), ("gram", ofMatF gl),
+             ("rdm", ofList ofFloat (rdms.headD []))])
+
+def handle : Handler := fun op j =>
+  match op with
+  | "c18.design" => some (design j)
+  | "c18.gram" => some (gram j)
+  | "c18.dataset" => some (dataset j)
+  | "c18.own" => some (own j)
+  | _ => none
 
 end Rsa.Drv.C18
